@@ -159,7 +159,13 @@ def _install():
                     tau = 1e-7 if method != "lsq_linear" else 1e-5
                     ok, rep = fb.kkt(Maug, raug, z, tau=tau)
                     gap = obj - objref
-                    if not ok and gap > 1e-9 * max(objref, 1e-10 * scale):
+                    gap_tol = 1e-9 * max(objref, 1e-10 * scale)
+                    if method == "lsq_linear":
+                        # scipy's trf works on the (squared) normal equations with tol=1e-10 on the cost; on rank-deficient
+                        # systems it stops with a residual of up to ~0.3 % of |rhs| (thorough sweep, seed 2)
+                        full_rank = m + 1 >= n + 1 and np.linalg.matrix_rank(Maug) == n + 1
+                        gap_tol = 1e-6 * objref + (1e-8 if full_rank else 1e-5) * scale
+                    if not ok and gap > gap_tol:
                         mech = "not-optimal"
                         if rec["path"] == "inv" and rec["xres"][-1] < 0 and x.min() >= 0:
                             mech = "inv-negative-multiplier"
@@ -171,6 +177,11 @@ def _install():
                     mon.count("unique:compared")
                     s = np.linalg.svd(Maug[:, zref > 1e-7], compute_uv=False)
                     cond = s.max() / s.min()
+                    if method in ("lsq", "lsq_linear"):
+                        # iterative back-ends do not land on the exact active set: their distance from the minimiser is
+                        # governed by the conditioning of the whole system, not of the free columns only
+                        s_all = np.linalg.svd(Maug, compute_uv=False)
+                        cond = max(cond, s_all.max() / max(s_all.min(), 1e-300))
                     tol = {None: 1e-6, "lsq": 1e-3, "lsq_linear": 1e-3}.get(method, 1e-6) * cond
                     d = float(np.abs(x - zref[:n]).max())
                     if d > tol and tol < 0.05:
